@@ -563,11 +563,16 @@ impl<'s, 'w, W: Write, S: Borrow<Schema>> Serializer for UnionSerializer<'s, 'w,
     fn serialize_struct(
         self,
         name: &'static str,
-        _len: usize,
+        len: usize,
     ) -> Result<Self::SerializeStruct, Self::Error> {
-        if let Some((index, Schema::Record(record))) =
-            self.union.find_named_schema(name, self.config.names)?
-        {
+        let found = match self.union.find_named_schema(name, self.config.names)? {
+            Some((index, Schema::Record(record))) => Some((index, record)),
+            // A struct variant of an untagged enum is serialized as a struct with the name of the enum
+            _ => self
+                .union
+                .find_record_with_n_fields(len, false, self.config.names)?,
+        };
+        if let Some((index, record)) = found {
             let bytes_written = zig_i32(index as i32, &mut *self.writer)?;
             Ok(RecordSerializer::new(
                 self.writer,
